@@ -14,7 +14,10 @@ Read from the current source on every run (regex over the function bodies):
     error exits call terminate_child (kill + wait);
   * join_capture: whether and how the overflow flag is re-read after the join and before UTF-8
     validation (own code only / any recorded overflow / not at all);
-  * run_host_process: join order on the success path and on the error path.
+  * run_host_process: join order on the success path and on the error path; which ProcessCaps field is handed
+    to each reader as its limit and to the wait loop as its poll interval;
+  * src/process.rs: the field list of ProcessCaps (declaration order) and, in ProcessCommand::validate, the
+    fallback of an unset timeout (`self.timeout_ms.unwrap_or(caps.<field>)`) and its bounds.
 The model (theories/Capture.v) takes these values from here, and proofs/CaptureProofs.v proves the
 theorems for exactly these values, so an edit of the source that changes one of them either
 re-checks or breaks the proof.  Rewritten only when the content changes.  Exit status 2 with a
@@ -203,6 +206,44 @@ def generate():
     if not re.search(r"exit_code:\s*status\.code\(\)", rest):
         raise TranslatorError("run_host_process: exit_code: status.code() not found")
 
+    # ---------------------------------------------------------------- which cap feeds what
+    # run_host_process: the limit handed to each reader, the poll interval and the deadline handed to the wait loop
+    rd_caps = {}
+    for mm2 in re.finditer(r"spawn_capture_reader\(\s*&mut\s+child\s*,\s*spec\.(stdout|stderr)\s*,\s*caps\.(\w+)\s*,\s*ProcessStream::(Stdout|Stderr)", rh):
+        if mm2.group(1).lower() != mm2.group(3).lower():
+            raise TranslatorError("run_host_process: reader for %s is given policy %s" % (mm2.group(3), mm2.group(1)))
+        rd_caps[mm2.group(3)] = mm2.group(2)
+    if set(rd_caps) != {"Stdout", "Stderr"}:
+        raise TranslatorError("run_host_process: the two spawn_capture_reader calls were not both found")
+    mw = re.search(r"wait_for_child\(\s*&mut\s+child\s*,\s*caps\.(\w+)\s*,\s*spec\.(\w+)\s*,\s*&overflow\s*\)", rh)
+    if not mw:
+        raise TranslatorError("run_host_process: wait_for_child(&mut child, caps.<poll>, spec.<timeout>, &overflow) not found")
+    poll_field, wait_timeout_src = mw.group(1), mw.group(2)
+    # src/process.rs: the field list of ProcessCaps and how validate() derives the deadline
+    with open(os.path.join(REPO, "src", "process.rs"), encoding="utf-8") as f:
+        psrc = strip_comments(f.read())
+    ms = re.search(r"pub\s+struct\s+ProcessCaps\s*\{(.*?)\}", psrc, flags=re.S)
+    if not ms:
+        raise TranslatorError("process.rs: struct ProcessCaps not found")
+    cap_fields = re.findall(r"pub\s+(\w+)\s*:\s*\w+", ms.group(1))
+    if not cap_fields:
+        raise TranslatorError("process.rs: ProcessCaps has no fields?")
+    vb = fn_body(psrc, "validate")
+    mt = re.search(r"let\s+timeout_ms\s*=\s*self\.timeout_ms\.unwrap_or\(\s*caps\.(\w+)\s*\)", vb)
+    if not mt:
+        raise TranslatorError("validate: `let timeout_ms = self.timeout_ms.unwrap_or(caps.<field>)` not found")
+    fallback_field = mt.group(1)
+    zero_rejected = bool(re.search(r"if\s+timeout_ms\s*==\s*0\s*\{\s*return\s+Err", vb))
+    mu = re.search(r"if\s+timeout_ms\s*(>=|>)\s*caps\.(\w+)\s*\{\s*return\s+Err", vb)
+    if not mu:
+        raise TranslatorError("validate: upper bound test on timeout_ms not found")
+    upper_strict, upper_field = mu.group(1) == ">", mu.group(2)
+    if not re.search(r"\btimeout_ms\s*,?\s*\}\)", vb) and not re.search(r"timeout_ms\s*,\s*\n?\s*\}\)", vb):
+        raise TranslatorError("validate: ProcessSpec { .. timeout_ms } not found")
+    for fld in [rd_caps["Stdout"], rd_caps["Stderr"], poll_field, fallback_field, upper_field]:
+        if fld not in cap_fields:
+            raise TranslatorError("caps.%s is not a field of ProcessCaps" % fld)
+
     def strm(x):
         return {"stdout": "S1", "stderr": "S2", "Stdout": "S1", "Stderr": "S2"}[x]
 
@@ -247,6 +288,22 @@ def generate():
     A("(* run_host_process *)")
     A("Definition err_join_order : list stream := [%s]." % "; ".join(strm(x) for x in err_joins))
     A("Definition ok_join_order : list stream := [%s]." % "; ".join(strm(x) for x in ok_joins))
+    A("")
+    A("(* ProcessCaps (src/process.rs), in declaration order, and which field feeds what *)")
+    A("Inductive cap_field := %s." % " | ".join("F_" + f for f in cap_fields))
+    A("Definition all_cap_fields : list cap_field := [%s]." % "; ".join("F_" + f for f in cap_fields))
+    A("Definition cap_field_index (f : cap_field) : nat :=\n  match f with %s end." %
+      " | ".join("F_%s => %d" % (f, i) for i, f in enumerate(cap_fields)))
+    A("(* run_host_process: limit handed to each reader thread, poll interval handed to the wait loop *)")
+    A("Definition reader_cap_field (s : stream) : cap_field := match s with S1 => F_%s | S2 => F_%s end." %
+      (rd_caps["Stdout"], rd_caps["Stderr"]))
+    A("Definition poll_field : cap_field := F_%s." % poll_field)
+    A("Definition wait_deadline_is_spec_timeout : bool := %s." % b(wait_timeout_src == "timeout_ms"))
+    A("(* ProcessCommand::validate: timeout_ms.unwrap_or(caps.<fallback>); rejected when 0 or above caps.<upper> *)")
+    A("Definition timeout_fallback_field : cap_field := F_%s." % fallback_field)
+    A("Definition timeout_upper_field : cap_field := F_%s." % upper_field)
+    A("Definition timeout_upper_strict : bool := %s.   (* rejected iff timeout > upper (true) or >= (false) *)" % b(upper_strict))
+    A("Definition timeout_zero_rejected : bool := %s." % b(zero_rejected))
     A("")
     return "\n".join(L)
 
